@@ -134,7 +134,7 @@ Definition Mref : list mdesc :=
 Lemma mesh_reload_refuted_lemma :
   m_last m_repaired Mref [MLoad 0%nat] (MLoad 1%nat) <> m_last m_repaired Mref [] (MLoad 1%nat)
   /\ m_last m_pinned Mref [MLoad 0%nat] (MLoad 1%nat) <> m_last m_pinned Mref [] (MLoad 1%nat)
-  /\ skipn 7 (m_last m_repaired Mref [MLoad 0%nat] (MLoad 1%nat)) = [4;5;6] /\ skipn 7 (m_last m_repaired Mref [] (MLoad 1%nat)) = [0;1;2].
+  /\ skipn 7 (m_last m_repaired Mref [MLoad 0%nat] (MLoad 1%nat)) = [4;5;6;0;1;2] /\ skipn 7 (m_last m_repaired Mref [] (MLoad 1%nat)) = [0;1;2;0;1;2].
 Proof. vm_compute. repeat split; congruence. Qed.
 (* SurfSourceMat leaves current_barrier set on its argument; a reload does not clear it (pinned) *)
 Lemma mesh_source_flag_pinned_refuted_lemma :
